@@ -134,6 +134,19 @@ CLAIMED = {
         note=TB + 'Closed under the global context. Partial: the theorem covers the rounding bound; presence/exactness are decided by the '
              'round-trip oracle because the text layer (PyYAML, NumPy repr) is runtime.',
         technique='Coq proof of the rounding bound over Q + executed round-trip oracle + vm_compute check of written temperatures'),
+    'C09': dict(
+        text='Machine-checked proof (Coq), PARTIAL: theorems about the interpreter primitives (every digit the scanner accepts is convertible - '
+             'no ValueError; the identifier scanner never reads past the end - termination of the fixed scanner; take(n) advances by at least n; '
+             'skipped text is a prefix; lines never decrease, columns stay positive) and finite certificates on the grammar object REGENERATED '
+             'from /repo on every run (no empty alternative list, the root requires end-of-input after the query, every undefined non-terminal is '
+             'one of three known names). Whole-interpreter totality and outcome classification are decided on every run by the correspondence of '
+             'the executable PEG+reader model with the implementation (parse tree, outcome class, error line/column) on generated, truncated, '
+             'token-edited, random and non-ASCII texts, each Read under a 5 s alarm, and by the direct oracle (allowed exception classes, error '
+             'position inside the text).',
+        design='5 / C09',
+        note=TB + 'Closed under the global context. peg_never_stuck / position_invariant over the whole interpreter are not yet theorems; the '
+             'host recursion limit is runtime (known finding); reading of rule texts is C16.',
+        technique='Coq lemmas on interpreter primitives + vm_compute certificates on the regenerated grammar + vm_compute correspondence with time-outs'),
 }
 
 PENDING_REASON = 'check not built yet in this round (design in DESIGN.md section 5); not claimed until it runs'
